@@ -27,13 +27,19 @@ LABELS = ["r", "R", "Foo Bar", "foo  bar", "FOO\tbar", "foo\nbar", "ß", "SS", "
           "long label with many words", "Long  Label with\tMany words",
           "w1 w2 w3 w4 w5 w6 w7 w8 w9 w10 w11 w12", "W1  w2 w3\tw4 w5 w6 w7 w8 w9  w10\tw11\nw12", "w1 w2 w3 w4 w5 w6 w7 w8 w9 w10 w11\xa0w12", "1", "١", "!", "\\!"]
 TITLES = ["", ' "t"', " 't'", " (t)", ' "a \\" b"', ' "&amp; *x*"', ' "multi\nline"', " 'it\\'s'", ' "é"', ' ""', " '\\''", ' "a\\\\"', ' "(x)"', " (a\\)b)", "\n'next line'",
+          ' "multi\n    # line"', " 'a\n     > b'", ' (x\n    - y)', "\n    'next line'", '\n\t"tab title"', ' "a\n    ```\n    b"', ' "a\n      <div>"', " 'a\n    1. b'",
           ' "tab\there"', " (&quot;)", ' "<b>"', ' "one\\\ntwo"', " 'a\\\nb\\\nc'", ' "x\\\\"', " (p\\\nq)"]
 DESTS = ["/u", "http://x.y/z?a=b&c", "<a b>", "<>", "a(b)c", "a\\(b", "&amp;x", "%20x", "é", "x#f", "a\\*b", "<a\\>b>", "&#35;", "javascript:x", "a_b_c", "a*b*", "x\\\\y",
+         "/forbidden/x", "http://x.y/forbidden", "JavaScript:alert(1)", "/rel/path?q=1#f",
          "<(>", "((a))", "a\\)", "/ü/%zz", "<a\tb>", "data:image/png;base64,x", "#", "//h/p", "\\<a>", "&copy;", "<\\<>"]
 TEXTS = ["t", "*e*", "`c`", "a b", "x\\]y", "![i](s)", "é", "a\nb", "&amp;", "[in]", "**s** _e_", "<b>h</b>", "a\\\\", "`]`", "x [y] z", "", "\\[", "<http://a.b>", "  p  ", "a  \nb"]
 
 
 def floors(tier):
+    return dict(_floors(tier), **{"triples.conf.hooks": 10000, "triples.conf.nocode": 5000, "triples.hook_changed_result": 2000})
+
+
+def _floors(tier):
     q = tier == "quick"
     return {"seed.cases": 20000 if q else 600000, "seed.resolved_through_R": 8000, "seed.history.twice": 3000, "seed.history.other_first": 3000,
             "acct.docs": 15000, "acct.definitions": 30000, "acct.duplicates": 5000, "acct.written_defs_located": 20000, "label.pairs": 40000,
@@ -224,13 +230,23 @@ def links(children):
     return [(c.type, dict(c.attrs)) for c in children if c.type in ("link_open", "image")]
 
 
+TRIPLE_CONFS = {
+    "cm": MD,
+    "hooks": {"preset": "commonmark", "link_hooks": True},          # application overrides normalizeLink / validateLink
+    "nocode": {"preset": "commonmark", "disable": ["code"]},          # indented continuation lines are not code
+    "js": {"preset": "js-default"},
+}
+
+
 def triple_case(ctx, case):
     ctx.count("evaluations")
     ctx.current = case
-    md = W.get_md(MD)
-    text, dest, title, bang = case["text"], case["dest"], case["title"], case["bang"]
-    inl = f"{bang}[{text}]({dest}{title})\n"
-    ref = f"{bang}[{text}][r]\n\n[r]: {dest}{title}\n"
+    cname = case.get("conf", "cm")
+    md = W.get_md(TRIPLE_CONFS[cname])
+    ctx.count("triples.conf." + cname)
+    text, dest, title, bang, sep = case["text"], case["dest"], case["title"], case["bang"], case.get("sep", "")
+    inl = f"{bang}[{text}]({sep}{dest}{title})\n"
+    ref = f"{bang}[{text}][r]\n\n[r]: {sep}{dest}{title}\n"
     try:
         ti = md.parse(inl)
         tr = md.parse(ref)
@@ -246,20 +262,24 @@ def triple_case(ctx, case):
         # the construct under test is the first token of its paragraph
         return bool(ch) and ch[0].type == kind
     oi, orr = outer(ci), outer(cr)
+    if cname == "hooks":
+        try:
+            ts = W.get_md(MD).parse(inl)
+            cs = ts[1].children if len(ts) > 1 and ts[1].type == "inline" else []
+            if links(cs) != links(ci):
+                ctx.count("triples.hook_changed_result")
+        except Exception:
+            pass
     if oi != orr:
-        # the reference form additionally needs a well-formed definition paragraph; if the definition was not recognised, the
-        # reference spelling is simply not well formed for this triple (e.g. title interrupted by block syntax)
-        defined = len(tr) >= 1 and not any(t.type == "inline" and t.content.lstrip().startswith("[r]:") for t in tr)
-        if not defined or len(ti) != 3:
-            ctx.count("triples.not_wellformed_both")
-            return
+        # (a line that interrupts the definition paragraph interrupts the inline form's paragraph just the same, so no allowance
+        # for "definition not recognised" is needed: on the whole alphabet both forms agree on the unchanged tree)
         viol(ctx, "reference-vs-inline:link-presence", f"inline form {'yields' if oi else 'does not yield'} a {kind}, reference form {'does' if orr else 'does not'}: {inl!r} vs {ref!r}", case)
         return
     if not oi:
         ctx.count("triples.neither")
         return
     ctx.count("triples.both_link")
-    ctx.nontrivial("triple", text, dest, title, bang)
+    ctx.nontrivial("triple", text, dest, title, bang, cname, sep)
     if len(tr) != 3:
         viol(ctx, "reference-vs-inline:definition-residue", f"reference form resolves but the definition left extra tokens {[t.type + ':' + t.content[:30] for t in tr[3:]][:4]}: {ref!r}", case)
         return
@@ -403,6 +423,11 @@ def run(ctx):
         case = {"kind": "triple", "text": rng.choice(TEXTS), "dest": rng.choice(DESTS), "title": rng.choice(TITLES), "bang": rng.choice(["", "!"])}
         if rng.random() < 0.3:
             case["text"] = rng.choice(TEXTS) + " " + rng.choice(TEXTS)
+        case["conf"] = rng.choice(["cm", "cm", "hooks", "hooks", "nocode", "js"])
+        if rng.random() < 0.25 and not (case["dest"][:1] in "#->`~=+*_" or case["dest"][:1].isdigit()):
+            # (a destination that alone on its line starts a block - '#' - is excluded: the inline spelling appends ')' to that line,
+            # the definition does not, so the two spellings are not the same line-wise)
+            case["sep"] = rng.choice(["\n", "\n    ", "\n\t", "  ", "\n      "])
         triple_case(ctx, case)
         if k % 4999 == 0:
             ctx.sample(case)
